@@ -55,7 +55,7 @@ def work_y_same(old, new):
 # ------------------------------------------------------------------------------ __init__
 
 contract(W + '.__init__', params=dict(self=Obj(W), x=Opt(Seq(Real, kind='arraylike')), y=Seq(Real, kind='arraylike')),
-         modifies=['self'])
+         modifies=['self'], constructor=True)
 
 
 @requires(W + '.__init__')
